@@ -49,7 +49,7 @@ def r1(ctx):
     ctx.need(len(loops) == 1, f"{f.site()}: per-sample loop not found")
     loop = loops[0]
     sid = U(loop.target)
-    apps = [c for c in calls(loop, tail="append")]
+    apps = [c for c in calls(loop, tail="append")] + [c for c in calls(loop, tail="extend") if c.args and isinstance(c.args[0], ast.Call) and call_name(c.args[0]) == "np.array_split"]
     direct = [n for n in walk_own(loop) if isinstance(n, ast.Assign) and isinstance(n.targets[0], ast.Subscript) and isinstance(n.value, (ast.JoinedStr, ast.Call, ast.BinOp))
               and "name" in U(n.targets[0].value)]
     ctx.need(apps or direct, f"{f.site()}: neither a plate-list append nor a direct label store found in the per-sample loop")
@@ -73,11 +73,12 @@ def r1(ctx):
     sp = [c for c in calls(loop, name="np.array_split")]
     ctx.need(len(sp) == 1, f"{f.site()}: np.array_split not found")
     npl = inline(sp[0].args[1], {k: v for k, v in lenv.items() if k == U(sp[0].args[1])})
-    idx = [k for k, v in lenv.items() if U(v).replace(" ", "") == f"np.arange({S}.size)[{S}.sample_ids=={sid}]"]
+    own_rows = (f"np.arange({S}.size)[{S}.sample_ids=={sid}]", f"np.flatnonzero({S}.sample_ids=={sid})", f"np.where({S}.sample_ids=={sid})[0]", f"np.nonzero({S}.sample_ids=={sid})[0]")
+    idx = [k for k, v in lenv.items() if U(v).replace(" ", "") in own_rows]
     ok = False
     if idx:
         L = f"len({idx[0]})"
-        t = U(npl).replace(" ", "")
+        t = U(npl).replace(" ", "").replace(f"{idx[0]}.size", L).replace(f"{idx[0]}.shape[0]", L)
         ok = t in (f"math.ceil({L}/float(self.max_plate_size))", f"math.ceil({L}/self.max_plate_size)", f"int(math.ceil({L}/self.max_plate_size))",
                    f"int(np.ceil({L}/self.max_plate_size))", f"-(-{L}//self.max_plate_size)")
         src = U(sp[0].args[0]).replace(" ", "")
